@@ -17,7 +17,9 @@ type plan struct {
 	// strDepth: every alphabet string in every slot for terms of depth
 	// <= strDepth (deeper terms carry only their tokens)
 	strDepth  int
-	pairDepth int // all pairs of slots x alphabet for depth <= pairDepth
+	// strCoreDepth: the same for terms of the A_core spaces (0 = strDepth)
+	strCoreDepth int
+	pairDepth    int // all pairs of slots x alphabet for depth <= pairDepth
 	alphabet  []string
 	// aliasSides: also visit, for every term with a side argument, the
 	// variant whose side argument has the same message strings as the
@@ -45,6 +47,7 @@ func eachTerm(c *core.Ctx, r *core.Result, p plan, f func(t *tm.Term)) {
 		return
 	}
 	var base int64
+	inCore := false
 	run := func(sp tm.Space) bool {
 		_, done := sp.ForEach(func(i int64) bool { return c.Mine(base + i) }, c.Expired, func(i int64, t *tm.Term) {
 			f(t)
@@ -54,7 +57,11 @@ func eachTerm(c *core.Ctx, r *core.Result, p plan, f func(t *tm.Term)) {
 				}
 			}
 			d := t.Depth()
-			if d <= p.strDepth {
+			sd := p.strDepth
+			if inCore && p.strCoreDepth > 0 {
+				sd = p.strCoreDepth
+			}
+			if d <= sd {
 				tm.StringVariants(t, p.alphabet, func(_ int, _ string, v *tm.Term) { f(v) })
 			}
 			if d <= p.pairDepth {
@@ -72,7 +79,13 @@ func eachTerm(c *core.Ctx, r *core.Result, p plan, f func(t *tm.Term)) {
 			return
 		}
 	}
-	for d := p.fullDepth + 1; d <= p.coreDepth; d++ {
+	inCore = true
+	coreFrom := p.fullDepth + 1
+	if p.strCoreDepth > p.strDepth {
+		// the core spaces of small depth are visited again for their string variants
+		coreFrom = p.strDepth + 1
+	}
+	for d := coreFrom; d <= p.coreDepth; d++ {
 		if !run(tm.Core(d)) {
 			return
 		}
@@ -158,7 +171,7 @@ func nonDefaultStrings(t *tm.Term) string {
 	t.EachSlot(func(k int, o *tm.Term, i int) {
 		tok := tm.Token(k)
 		if o.S[i] != tok {
-			parts = append(parts, fmt.Sprintf("%s.%s=%q", o.Op.Name, o.Op.Slots[i].Name, strings.Replace(o.S[i], tok, "", 1)))
+			parts = append(parts, fmt.Sprintf("%s.%s=%q", o.Op.Name, o.Op.Slots[i].Name, strings.ReplaceAll(o.S[i], tok, "")))
 		}
 	})
 	return strings.Join(parts, ",")
